@@ -26,6 +26,8 @@ type c14Scenario struct {
 	Plan       []string `json:"plan,omitempty"` // preemption plan over the wake-up statements of syncer/bisync.go
 	OtherDB    bool     `json:"other_db,omitempty"`  // the target already holds a key in db 1 and db 3 (start-up visits several databases)
 	SnapKeys   int      `json:"snap_keys,omitempty"` // keys in the snapshot the first full sync replays (0 = empty snapshot)
+	Bulk       bool     `json:"bulk,omitempty"`      // all items of one symbol arrive in one read
+	BigTxn     int      `json:"big_txn,omitempty"`   // commands in the transaction of symbol tL (0 = 1100)
 }
 
 type c14Run struct {
@@ -55,6 +57,10 @@ type c14Rec struct {
 const c14Target = "bitarget:6379"
 
 func c14Exec(t *testing.T, scn c14Scenario, ch *mc.Chooser) (rec c14Rec, machinery string) {
+	bigTxnCmds = 1100
+	if scn.BigTxn > 0 {
+		bigTxnCmds = scn.BigTxn
+	}
 	msg := bubble(t, func() {
 		var pre *preemptCtl
 		if scn.Preempt {
@@ -166,6 +172,17 @@ func c14Exec(t *testing.T, scn c14Scenario, ch *mc.Chooser) (rec c14Rec, machine
 					}
 				}
 				it := items[pos]
+				if scn.Bulk {
+					raw := append([]byte(nil), it.Raw...)
+					n := 1
+					for pos+n < len(items) && items[pos+n].Sym == it.Sym {
+						raw = append(raw, items[pos+n].Raw...)
+						n++
+					}
+					crashed = doEvent(func() { run.feed(raw) })
+					pos += n
+					continue
+				}
 				crashed = doEvent(func() { run.feed(it.Raw) })
 				pos++
 			}
@@ -602,6 +619,9 @@ func runC14(t *testing.T, rep *mc.Reporter) {
 		cplans = tplans
 		plans = nil
 	}
+	if fam == "big" {
+		cplans = nil
+	}
 	for _, cp := range cplans {
 		// one execution costs about half a second (every start scans the 16384 slots): all shards
 		// share each of these scenarios, divided at the root of its execution tree
@@ -713,6 +733,30 @@ func runC14(t *testing.T, rep *mc.Reporter) {
 				}
 			}
 		})
+	}
+	// ---- one replay unit with far more commands than any batch size or per-transaction constant
+	// (symbol tL: a source MULTI/EXEC of 1100 commands arriving in one read), every crash point that
+	// changes the target's data, one idle restart
+	if fam == "" || fam == "big" {
+		sizes := []int{1100}
+		if tier == "thorough" {
+			sizes = []int{70, 300, 1100, 4100}
+		}
+		for _, n := range sizes {
+			for _, cfg := range allCfg {
+				for _, syms := range [][]string{{"s0", "w1", "tL", "w1"}, {"s0", "tL", "t2"}} {
+					idx++
+					if idx%nshards != shard || budget.Expired() {
+						continue
+					}
+					scn := c14Scenario{Syms: syms, Cfg: cfg, MaxCrashes: 1, Idle: 1, Bulk: true, BigTxn: n}
+					mc.RunScenario(rep, scn, 0, budget, func(ch *mc.Chooser) mc.Result { return exec(scn, ch) })
+				}
+			}
+		}
+	}
+	if fam != "" {
+		plans = nil
 	}
 	for _, pl := range plans {
 		pl := pl
